@@ -102,3 +102,85 @@ pub fn run() {
     scenario!("S6", S6, s_6, |t: u64| (Cz::make(0, 0), P1(t)), 0);
     scenario!("S7", S7, s_7, |t: u64| (P2(t as u32), Ch::make(t, 3), P1(t), Cw::make(t + 1, 4)), 2);
 }
+
+/// C17 on worlds of ONE and TWO archetypes (the main world always has five): the world-level
+/// event iterators against the archetype-level logs, size_hint at every position, clears.
+#[cfg(feature = "events")]
+pub mod ev {
+    use super::*;
+    ecs_world! {
+        ecs_name!(We1);
+        ecs_archetype!(Solo, P1);
+    }
+    pub mod two {
+        use super::super::*;
+        ecs_world! {
+            ecs_name!(We2);
+            ecs_archetype!(Left, P1);
+            ecs_archetype!(Right, P2);
+        }
+    }
+    fn walk<'a>(mut it: impl Iterator<Item = &'a EntityAny>) -> (Vec<EntityAny>, bool) {
+        let mut items = Vec::new();
+        let mut exact = true;
+        loop {
+            let (lo, hi) = it.size_hint();
+            let before = (lo, hi);
+            match it.next() {
+                Some(e) => {
+                    items.push(*e);
+                    if before.1 != Some(before.0) {
+                        exact = false;
+                    }
+                }
+                None => {
+                    if before != (0, Some(0)) {
+                        exact = false;
+                    }
+                    break;
+                }
+            }
+        }
+        (items, exact)
+    }
+    pub fn run() {
+        // one archetype
+        let mut w = We1::new();
+        let a = w.create::<Solo>((P1(1),));
+        let b = w.create::<Solo>((P1(2),));
+        let c = w.solo.create_within_capacity((P1(3),)).ok();
+        w.destroy(b);
+        let (wc, e1) = walk(w.iter_created());
+        let (wd, e2) = walk(w.iter_destroyed());
+        let ac: Vec<EntityAny> = w.solo.iter_created().map(|e| (*e).into_any()).collect();
+        let ad: Vec<EntityAny> = w.solo.iter_destroyed().map(|e| (*e).into_any()).collect();
+        let remaining = wc.len() as i64 - { let mut it = w.iter_created(); it.next(); it.size_hint().0 as i64 };
+        println!("E1 created_world_eq_arch={} destroyed_world_eq_arch={} n_created={} n_destroyed={} hints_exact={} after_one_next={} first_is_a={} c_made={}",
+            (wc == ac) as u8, (wd == ad) as u8, wc.len(), wd.len(), (e1 && e2) as u8, remaining, (wc.first() == Some(&a.into_any())) as u8, c.is_some() as u8);
+        w.clear_events();
+        let (wc, _) = walk(w.iter_created());
+        let (wd, _) = walk(w.iter_destroyed());
+        println!("E2 after_clear created={} destroyed={} len={}", wc.len(), wd.len(), w.solo.len());
+        // two archetypes, the first with an empty log
+        use two::*;
+        let mut w = We2::new();
+        let r1 = w.create::<Right>((P2(1),));
+        let r2 = w.create::<Right>((P2(2),));
+        w.destroy(r1);
+        let (wc, e1) = walk(w.iter_created());
+        let (wd, e2) = walk(w.iter_destroyed());
+        println!("E3 created={} destroyed={} hints_exact={} order_ok={}", wc.len(), wd.len(), (e1 && e2) as u8, (wc == vec![r1.into_any(), r2.into_any()] && wd == vec![r1.into_any()]) as u8);
+        let l1 = w.create::<Left>((P1(9),));
+        w.right.clear_events();
+        let (wc, e1) = walk(w.iter_created());
+        let (wd, e2) = walk(w.iter_destroyed());
+        println!("E4 created={} destroyed={} hints_exact={} only_left={}", wc.len(), wd.len(), (e1 && e2) as u8, (wc == vec![l1.into_any()]) as u8);
+    }
+}
+
+#[cfg(not(feature = "events"))]
+pub mod ev {
+    pub fn run() {
+        println!("E0 no-events");
+    }
+}
